@@ -538,6 +538,8 @@ Proof.
                               box 4 16 192 14; box 6 74 100 12]
               | _, _ => false end = true) by (vm_compute; reflexivity).
   rewrite E, E' in X. do 4 (apply andb_true_iff in X; destruct X as [X ?]). repeat split; assumption.
+Qed.
+
 (* ---------------------------------------------------------------------------------------------- the flex algorithm *)
 From TV Require Import Model.Common Model.Leaf Model.FlexAlgBase Model.FlexAlg Model.EngineLift Model.BlockFlexEngine.
 From TV Require Import Proofs.FlexAlgBlind Proofs.BlockFlexEngine.
@@ -570,7 +572,7 @@ Theorem C06_blockflex_engine_instance :
       (bf_visible_absolute (style_of (BFStyle T) (FIn T) (LayoutOutput T) (FLay T) t) = false -> fout_eq o o').
 Proof.
   intros T N kind pre abs_child leaf mode in_eqb is_none hidden_out zero_lay Hloc algo f f' t t' i o t1 o' t1' Hs E E'.
-  eapply (C06_abs_blind_engine (BFStyle T) (FIn T) (LayoutOutput T) (FLay T) mode in_eqb is_none hidden_out zero_lay algo
+  eapply (C06_abs_blind_engine_partial (BFStyle T) (FIn T) (LayoutOutput T) (FLay T) mode in_eqb is_none hidden_out zero_lay algo
             bf_visible_absolute fout_eq flay_eq); eauto.
   - apply fout_eq_refl.
   - apply flay_eq_refl.
